@@ -33,6 +33,12 @@ def run(tier, a=None):
                 res.add(k, HOLDS, "bodies equal", rule)
             else:
                 res.add(k, UNDECIDED, "bodies differ structurally (the closed-form clause judges the values)", rule)
+    # the property demands that these operations exist: a wrapper that does not compile is a violation
+    for i in res.inst:
+        if i["verdict"] == common.MISSING:
+            i["verdict"] = REFUTED
+            i["rule"] = "Denominator<V> must be constructible from V and from Denominator<scalar>, and div / % / value() must be usable"
+            i["witness"] = {"note": "instantiate this expression for the type", "compiler_says": (i.get("detail") or "")[:200]}
     res.trusted = ["clang -O2 preserves UB-free meaning", "bisimilar CFG+dataflow graphs compute the same function"]
     return common.finish(res, explanation="STRUCTURAL CLAIM. (broadcast) Denominator<V>(Denominator<scalar>(d)) must exist for every integer vector "
                          "type (the wrapper must compile) and div by it is compared, as a closed form, with truncating division of every "
